@@ -188,6 +188,13 @@ def step (d : DS) (ws : List String) : DS × String :=
         ({ d with st := σ, tfiles := d.tfiles ++ o }, s!"recs={rs}")
     | _, _, _, _ => (d, "bad-op")
   | ["state"] => (d, showState d.st)
+  | ["compact", ks] =>
+    -- (outside C04's operations) a compaction of the source family: the files leave level 0
+    match (ks.splitOn ",").mapM (fun w => match w.splitOn "." with
+        | [a, b] => do let x ← a.toNat?; let y ← b.toNat?; some (x, y)
+        | _ => none) with
+    | some keys => let σ := d.st.apply (.compact keys); ({ d with st := σ }, showState σ)
+    | none => (d, "bad-op")
   | ["reopen"] =>
     let σ := d.st.step (.reopen d.st.pending d.st.refs)
     ({ d with st := σ }, showState σ)
